@@ -905,6 +905,11 @@ Proof.
   intros Hs Hy. apply G. right. exists s. split; assumption.
 Qed.
 
+Lemma node_level_and_clamp h p f d :
+  level_of (node_id h p f d) = N.min d depth_clamp /\
+  ((depth_clamp <= d)%N -> node_id h p f d = node_id h p f depth_clamp).
+Proof. split; [apply node_level|apply deep_levels_clamped]. Qed.
+
 (* ------------------------------------------------------------------ a collision under the REAL hash
    Found by harness/cmd/profcollide (birthday search over the 55 hash bits of a node id, 2 s):
      getNodeId(id of root frame main.p71,  CH64("main.f42920d41cc6b47"), 2)
